@@ -832,7 +832,9 @@ func Route(w *load.World, c *core.Collector) {
 				case *ssa.Store:
 					if fa, ok := x.Addr.(*ssa.FieldAddr); ok && fieldOf(fa) == "cluster.ClusterNode.Servers" {
 						key := "servers-store:" + load.FnKey(f)
-						if _, fresh := ssax.Path(fa.X); fresh && load.FnKey(f) == "cluster.NewNode" {
+						if _, fresh := ssax.Path(fa.X); fresh && !serversAsConfigured(x.Val, 0) {
+							c.Add("ROUTE", key, core.Violation, w.At(in), "the server list the node routes over is not the configured list as it is (something is appended to it or taken out): a node whose own name is missing from the list — the node being removed from the cluster — would route over a different set than its peers and keep what it should hand over", "C13", "C14")
+						} else if fresh && load.FnKey(f) == "cluster.NewNode" {
 							c.Add("ROUTE", key, core.OK, w.At(in), "", "C13")
 						} else {
 							c.Add("ROUTE", key, core.Violation, w.At(in), "the server list is modified after construction: nodes of one process would disagree over time", "C13")
@@ -903,7 +905,78 @@ func Fanout(w *load.World, c *core.Collector) {
 				}
 			}
 		}
-		if okFlag {
+		// ... and the counter that is compared with the number of shards only counts shards whose call
+		// returned without an error
+		countBad := ""
+		for _, b := range f.Blocks {
+			for _, in := range b.Instrs {
+				call, ok := in.(*ssa.Call)
+				if !ok || call.Call.StaticCallee() == nil || call.Call.StaticCallee().Name() != "curateFailedPoints" {
+					continue
+				}
+				bo, ok := call.Call.Args[2].(*ssa.BinOp)
+				if !ok {
+					continue
+				}
+				for _, side := range []ssa.Value{bo.X, bo.Y} {
+					ld, ok := side.(*ssa.UnOp)
+					if !ok || ld.Op != token.MUL {
+						continue
+					}
+					cell, ok := ld.X.(*ssa.Alloc)
+					if !ok {
+						continue
+					}
+					var visit func(lit *ssa.Function, depth int)
+					visit = func(lit *ssa.Function, depth int) {
+						var fv *ssa.FreeVar
+						for _, pb := range lit.Parent().Blocks {
+							for _, pi := range pb.Instrs {
+								if mc, ok := pi.(*ssa.MakeClosure); ok && mc.Fn == lit {
+									for i, bnd := range mc.Bindings {
+										if bnd == ssa.Value(cell) && i < len(lit.FreeVars) {
+											fv = lit.FreeVars[i]
+										}
+									}
+								}
+							}
+						}
+						if fv == nil {
+							return
+						}
+						var nilEdges []ssax.Edge
+						for _, lb := range lit.Blocks {
+							for _, li := range lb.Instrs {
+								if lc, ok := li.(*ssa.Call); ok {
+									if ev := errResultValue(lc); ev != nil {
+										_, ne := ssax.NilTests(lit, ev)
+										nilEdges = append(nilEdges, ne...)
+									}
+								}
+							}
+						}
+						for _, r := range *fv.Referrers() {
+							st, ok := r.(*ssa.Store)
+							if !ok || st.Addr != ssa.Value(fv) {
+								continue
+							}
+							if add, ok := st.Val.(*ssa.BinOp); !ok || add.Op != token.ADD {
+								continue
+							}
+							if !onlyViaAny(nilEdges, st.Block()) {
+								countBad = w.At(st)
+							}
+						}
+					}
+					for _, lit := range f.AnonFuncs {
+						visit(lit, 0)
+					}
+				}
+			}
+		}
+		if okFlag && countBad != "" {
+			c.Add("FANOUT", "complete-flag:"+name, core.Violation, countBad, `the count of shards that answered is raised for a shard whose call failed: "not found" is reported although not every shard answered`, props...)
+		} else if okFlag {
 			c.Add("FANOUT", "complete-flag:"+name, core.OK, w.Position(f.Pos()), "", props...)
 		} else {
 			c.Add("FANOUT", "complete-flag:"+name, core.Violation, w.Position(f.Pos()), `"not found" may be reported although not every shard answered`, props...)
@@ -3579,4 +3652,71 @@ func destLeaf(w *load.World, v ssa.Value, depth int) leafKind {
 		}
 	}
 	return leafUnknown
+}
+
+// serversAsConfigured: the value is the Servers field of the configuration, possibly cloned —
+// never the result of an append, a filter or a sort that can change its members.
+func serversAsConfigured(v ssa.Value, depth int) bool {
+	if depth > 5 {
+		return false
+	}
+	switch x := v.(type) {
+	case *ssa.UnOp:
+		if x.Op != token.MUL {
+			return false
+		}
+		if fa, ok := x.X.(*ssa.FieldAddr); ok {
+			st := ssax.StructOf(fa.X.Type())
+			return st != nil && st.Field(fa.Field).Name() == "Servers"
+		}
+		if al, ok := x.X.(*ssa.Alloc); ok {
+			okAll, n := true, 0
+			for _, r := range *al.Referrers() {
+				if st, ok := r.(*ssa.Store); ok && st.Addr == ssa.Value(al) {
+					n++
+					if !serversAsConfigured(st.Val, depth+1) {
+						okAll = false
+					}
+				}
+			}
+			return okAll && n > 0
+		}
+	case *ssa.Field:
+		st := ssax.StructOf(x.X.Type())
+		return st != nil && st.Field(x.Field).Name() == "Servers"
+	case *ssa.Phi:
+		for _, e := range x.Edges {
+			if !serversAsConfigured(e, depth+1) {
+				return false
+			}
+		}
+		return len(x.Edges) > 0
+	case *ssa.Call:
+		if g := x.Call.StaticCallee(); g != nil && (strings.HasPrefix(g.String(), "slices.Clone") || strings.HasPrefix(g.String(), "slices.Clip")) && len(x.Call.Args) == 1 {
+			return serversAsConfigured(x.Call.Args[0], depth+1)
+		}
+		return false
+	case *ssa.Slice:
+		if x.Low == nil && x.High == nil {
+			return serversAsConfigured(x.X, depth+1)
+		}
+	}
+	return false
+}
+
+// errResultValue: the error value a call returns (the call itself, or its last extracted result).
+func errResultValue(call *ssa.Call) ssa.Value {
+	res := call.Call.Signature().Results()
+	if res.Len() == 0 || !isErrorType(res.At(res.Len()-1).Type()) {
+		return nil
+	}
+	if res.Len() == 1 {
+		return call
+	}
+	for _, r := range *call.Referrers() {
+		if ex, ok := r.(*ssa.Extract); ok && ex.Index == res.Len()-1 {
+			return ex
+		}
+	}
+	return nil
 }
